@@ -402,11 +402,11 @@ func c20Kinds() []c20Kind {
 	}
 }
 
-func c20Ops(k c20Kind) []string {
+func c20Ops(k c20Kind, depth int) []string {
 	if k.Cont == "dict" {
 		return c20DictOps()
 	}
-	return c20ArrayOps(k, true)
+	return c20ArrayOps(k, depth == 0)
 }
 
 func c20Roots(env *mc.Env) ([]*c20Root, error) {
@@ -472,7 +472,7 @@ func runC20(env *mc.Env) {
 	states, trans := mc.BFS(env, mc.BFSOpts[c20State]{
 		Init:     init,
 		MaxDepth: depth,
-		Ops:      func(n *mc.Node[c20State]) []string { return c20Ops(n.State.Root.K) },
+		Ops:      func(n *mc.Node[c20State]) []string { return c20Ops(n.State.Root.K, n.Depth) },
 		Step: func(n *mc.Node[c20State], op string) (c20State, bool) {
 			next, o := c20Step(n.State, n.Path, op, true)
 			env.R.EvalN(2)
@@ -532,7 +532,7 @@ func replayC20(env *mc.Env, raw json.RawMessage) (bool, string) {
 func init() {
 	mc.Register(&mc.Check{
 		ID: "C20",
-		Rule: "breadth-first search to depth 2 (quick) / 3 (thorough) from every root = (container in {[E], [E; N], {K: V}}) x (element in {Int, ~200-char String, [Int]}; dictionaries also {String: Int} with ~200-char keys) x (start size in {0, 1, inline-1, inline, split-1, split} with the two atree thresholds measured at run time) x (interpreter, VM). Alphabet per state: one 'observe' transaction (length, index reads, slice, reverse, concat, filter, map, contains, firstIndex, toConstantSized/toVariableSized, iteration; dictionaries: reads, keys, values, containsKey, forEachKey with early stop, iteration), every mutation (append, appendAll, insert, remove, removeFirst/Last, index write, replace-by reverse/slice/concat/filter/map, dictionary insert/remove/index write/nil write) at positions {0, mid, last/end}, every invalid-index variant {len, len+1, -1, inverted slice}, and bulk macro-operations of 60 elements that cross the thresholds. Every transition is run as its own transaction on the stored container and as a script that replays the whole path in memory; outputs, failures and full final contents (decoded from the committed ledger / the script result) are compared with a Go slice/map model; rtx.Health before states merge. Non-trivial = transition that changes the number of slabs, or an index error.",
+		Rule: "breadth-first search to depth 2 (quick) / 3 (thorough) from every root = (container in {[E], [E; N], {K: V}}) x (element in {Int, ~200-char String, [Int]}; dictionaries also {String: Int} with ~200-char keys) x (start size in {0, 1, inline-1, inline, split-1, split} with the two atree thresholds measured at run time) x (interpreter, VM). Alphabet per state: one 'observe' transaction (length, index reads, slice, reverse, concat, filter, map, contains, firstIndex, toConstantSized/toVariableSized, iteration; dictionaries: reads, keys, values, containsKey, forEachKey with early stop, iteration), every mutation (append, appendAll, insert, remove, removeFirst/Last, index write, replace-by reverse/slice/concat/filter/map, dictionary insert/remove/index write/nil write) at positions {0, mid, last/end}, every invalid-index variant {len, len+1, -1}, slice over ALL 25 (from, upTo) pairs of {0, mid, last, len, len+1} at every root (= every start size class) and over representatives (inverted, past the end, negative, equal out-of-range, equal at len) elsewhere, and bulk macro-operations of 60 elements that cross the thresholds. Every transition is run as its own transaction on the stored container and as a script that replays the whole path in memory; outputs, failures and full final contents (decoded from the committed ledger / the script result) are compared with a Go slice/map model; rtx.Health before states merge. Non-trivial = transition that changes the number of slabs, or an index error.",
 		Assumptions: []string{
 			"'index error' is judged as: the operation fails with a user-class error and leaves the container unchanged; the Go error type is not required by name",
 			"dictionary enumeration order is unspecified: keys are compared as a set, values/iteration by pairing with keys",
